@@ -211,7 +211,8 @@ fn dump(c: &Case, w: &World) -> Value {
         .iter()
         .map(|k| match s.get(k) {
             Some(r) => {
-                if r.key != *k { NF + 1 } else { c.vix(&r.value) }
+                // NF is reserved for "nothing": a wrong key is NF+1, bytes of no known value NF+2
+                if r.key != *k { NF + 1 } else if c.vix(&r.value) == NF { NF + 2 } else { c.vix(&r.value) }
             }
             None => NF,
         })
@@ -381,7 +382,7 @@ fn run_hist(case: &Value, base: &Path, serial: u64) -> Value {
             "get" => {
                 let r = w.store.get(&c.keys[ku]).map(|r| r.into_owned());
                 match r {
-                    Some(r) => json!({"get": if r.key != c.keys[ku] { NF + 1 } else { c.vix(&r.value) },
+                    Some(r) => json!({"get": if r.key != c.keys[ku] { NF + 1 } else if c.vix(&r.value) == NF { NF + 2 } else { c.vix(&r.value) },
                                       "raw": if c.vix(&r.value) == NF { Some(hex::encode(&r.value)) } else { None }}),
                     None => json!({"get": NF}),
                 }
